@@ -230,6 +230,9 @@ def main():
         nat.append("    NForm { name: \"%s\", oracle: isa::f::%s, sym_pc: %s, regmask: 0x%x, relax: %s, b0: %s, b1: %s, w: [%s], pre: %d, call: |cpu, op, op2| { let _ = (op, op2); %s } },\n"
                    % (f["name"], f["oracle"], "true" if f["pc"] == "sym" else "false", f["regmask"], "true" if f["relax"] else "false", spec(f["b0"]), spec(f["b1"]),
                       ",".join(spec(x) for x in f["w"]), f["pre"], f["call"]))
+    # native-only entry: the exact (non-relaxed) DIVXU.W contract, which CBMC cannot finish; used by the bounded native
+    # comparison when the Verus unit `div` is out of reach after a source change
+    nat.append("    NForm { name: \"DIVXU_W_EXACT\", oracle: isa::f::DIVXU_W, sym_pc: false, regmask: 0xffffffff, relax: false, b0: (0x53, 0x0), b1: (0x0, 0xf7), w: [(0x0, 0xffff),(0x0, 0xffff),(0x0, 0xffff),(0x0, 0xffff)], pre: 1, call: |cpu, op, op2| { let _ = (op, op2); cpu.divxu_w(op) } },\n")
     nat.append("];\n")
     open(os.path.join(here, "forms_native.rs"), "w").write("".join(nat))
     os.makedirs(os.path.join(here, "..", "lib"), exist_ok=True)
